@@ -12,7 +12,7 @@
   a cgo build against the system libzstd (thorough tier) — labelled support, not proof.
 -/
 import Desync.Proofs.LocalStoreProofs
-import Desync.Model.CrashFS
+import Desync.Proofs.CrashFSProofs
 
 namespace Desync.C20
 open Desync
@@ -62,5 +62,55 @@ theorem gen_literals :
     uncompressed writer of the same ID, whose final names differ (`formats_disjoint`), cannot
     overwrite each other's bytes -/
 theorem writers_use_private_temp_files : Gen.localStoreChunkShape = CrashFS.modelledShape := by decide
+
+/-- one `StoreChunk` call of a store of either format: (uncompressed?, chunk ID, the random suffix of
+    its temp file, the storage bytes) -/
+def mkWriter (j : Bool × Bytes × Bytes × Bytes) : CrashFS.Writer :=
+  { final := (nameFromID j.1 j.2.1).2, tmp := Gen.tmpChunkPrefixBytes ++ j.2.2.1, payload := j.2.2.2 }
+
+/-- **both formats, concurrently, with crashes**: any number of concurrent `StoreChunk` calls of
+    compressed *and* uncompressed stores sharing one directory (also of the same chunk ID), writes
+    cut short at any byte count, the process dying after any step: every file visible under a name
+    without the temp prefix holds the complete valid storage bytes of its own format -/
+theorem mixed_writers_crash_atomic (Valid : CrashFS.Name → CrashFS.Content → Prop)
+    (jobs : List (Bool × Bytes × Bytes × Bytes)) (dir0 : List (CrashFS.Name × CrashFS.Content))
+    (hid : ∀ j ∈ jobs, j.2.1.length = 32)
+    (hsuf : (jobs.map (·.2.2.1)).Nodup)
+    (hkeys : (dir0.map (·.1)).Nodup)
+    (hfresh : ∀ j ∈ jobs, ∀ e ∈ dir0, e.1 ≠ Gen.tmpChunkPrefixBytes ++ j.2.2.1)
+    (hvalid0 : ∀ e ∈ dir0, (!hasPrefix e.1 Gen.tmpChunkPrefixBytes) = true → Valid e.1 e.2)
+    (hpay : ∀ j ∈ jobs, Valid (nameFromID j.1 j.2.1).2 j.2.2.2)
+    (s : CrashFS.St) (h : CrashFS.Reachable ⟨dir0, jobs.map mkWriter⟩ s) :
+    ∀ e ∈ s.dir, (!hasPrefix e.1 Gen.tmpChunkPrefixBytes) = true → Valid e.1 e.2 := by
+  refine CrashFS.crash_atomic (fun n => !hasPrefix n Gen.tmpChunkPrefixBytes) Valid _ ?_ s h
+  exact {
+    tmp_not_chunk := by
+      intro w hw
+      obtain ⟨j, _, rfl⟩ := List.mem_map.1 hw
+      simp [mkWriter, hasPrefix_append]
+    final_chunk := by
+      intro w hw
+      obtain ⟨j, hj, rfl⟩ := List.mem_map.1 hw
+      have := hexEncode_not_tmp j.2.1 (extOf j.1) (hid j hj)
+      simp only [mkWriter, nameFromID, this, Bool.not_false]
+    tmp_distinct := by
+      simp only [List.map_map]
+      have : ((fun w : CrashFS.Writer => w.tmp) ∘ mkWriter) = (fun s => Gen.tmpChunkPrefixBytes ++ s) ∘ (·.2.2.1) := rfl
+      rw [this, ← List.map_map]
+      exact List.Pairwise.map _ (fun a b hab h => hab (List.append_cancel_left h)) hsuf
+    tmp_fresh := by
+      intro w hw e he
+      obtain ⟨j, hj, rfl⟩ := List.mem_map.1 hw
+      exact hfresh j hj e he
+    payload_valid := by
+      intro w hw
+      obtain ⟨j, hj, rfl⟩ := List.mem_map.1 hw
+      exact hpay j hj
+    init_valid := hvalid0
+    init_pc := by
+      intro w hw
+      obtain ⟨j, _, rfl⟩ := List.mem_map.1 hw
+      rfl
+    dir_keys := hkeys }
 
 end Desync.C20
